@@ -2,7 +2,7 @@
 import re
 import lib
 
-GEN_MODULES = []
+GEN_MODULES = ["Justify"]
 ASSUMPTIONS = ["theorems: cutting splits the stream into two well-formed chains; the line-end sentinel round trip restores every link (Props/C19.lean)",
                "Segment::justify as a whole (arithmetic, justification passes, positionSlots, reverseSlots) is not modelled: its clauses are decided on the implementation by API histories",
                "known finding D-10b: justify with a requested direction opposite to the font's on a line-broken segment relinks slots across lines"]
@@ -73,6 +73,12 @@ def lines_gen(r, n):
 
 def lines_holds(l, i):
     w = l.split()
+    if w[0] == "jsize":
+        # SlotJustify::size_of(levels) on the implementation: the stride must keep every record aligned for its next pointer
+        m = re.match(r"size_of=(\d+) rec=(\d+) ptr=(\d+)", i)
+        if not m:
+            return False, "no answer"
+        return int(m.group(1)) % int(m.group(3)) == 0, "the stride of the justification records is not a multiple of the pointer size: records are misaligned"
     ops = w[2:]
     if any(o[0] in "FL" for o in ops) or any(o.startswith("a-1") for o in ops):
         return None, ""
@@ -248,8 +254,8 @@ def run(ctx):
     res = lib.Result()
     q = ctx.quick()
     r = lib.rng("c19")
-    lib.correspond(ctx, res, "h_heap", "lines", lines_gen(r, 2000 if q else 60000), lines_holds, exe_args=[str(lib.REPO / "tests" / "fonts" / "general.ttf")], per_chunk=400,
-                   rule="lines: 1..9 slots, cuts before interior slots, sentinel round trips (addLineEnd in front of a slot, delLineEnd), plus unstructured sequences incl. addLineEnd(NULL), redirected first/last")
+    lib.correspond(ctx, res, "h_heap", "lines", ["jsize %d" % k for k in range(0, 260)] + lines_gen(r, 2000 if q else 60000), lines_holds, exe_args=[str(lib.REPO / "tests" / "fonts" / "general.ttf")], per_chunk=400,
+                   rule="jsize: SlotJustify::size_of(0..259) and the two sizes it is made of against Gen/Justify.lean; lines: 1..9 slots, cuts before interior slots, sentinel round trips (addLineEnd in front of a slot, delLineEnd), plus unstructured sequences incl. addLineEnd(NULL), redirected first/last")
     exe = lib.build_harness("h_seg")
     lines, meta = histories(r, 600 if q else 20000)
     fonts = [str(lib.REPO / "tests" / "fonts" / f[0]) for f in FONTS]
